@@ -53,7 +53,8 @@ def _b_worker(job):
     R = _G["R"]
     pgnX = _G["pgns"][0]
     rep = Report(PID, _G["tier"], 0, "model_checking")
-    first_choice, sizes, maxpicks = job
+    first_choice, sizes, maxpicks = job[:3]
+    ypattern = job[3] if len(job) > 3 else "every"       # when a frame of stream Y follows an X frame: every / odd / even X feed
     cs = [z3.BitVec("c%d" % i, 3) for i in range(len(sizes) + 1)]
     assume = [cs[i] != cs[j] for i in range(len(cs)) for j in range(i + 1, len(cs))]
     msgs = [make_frames("m%d" % i, n, SymInt(z3.ZeroExt(1, cs[i]), 3)) for i, n in enumerate(sizes)]
@@ -69,15 +70,21 @@ def _b_worker(job):
         dec._call_decode_function = lambda pgn_, pr_, s_, d_, ts_, data, iso, raw: calls.append((s_, data)) or ("MSG", len(calls))
         events = []       # (kind, msg index, frame index, returned, ncalls_after)
         ycount = [0]
+        xcount = [0]
 
         def feed_x(fr):
             r = dec._decode(pgnX, 3, 7, 255, TS, fr, b"")
-            # interleave one frame of stream Y (other source address) after every X frame
-            k = ycount[0] % len(yframes)
-            ycount[0] += 1
-            ry = dec._decode(pgnX, 3, 9, 255, TS, yframes[k], b"")
-            trans[0] += 2
-            return r, ry, k
+            # interleave one frame of stream Y (other source address) after every / every other X frame
+            nx = xcount[0]
+            xcount[0] += 1
+            if ypattern == "every" or (ypattern == "odd" and nx % 2 == 1) or (ypattern == "even" and nx % 2 == 0):
+                k = ycount[0] % len(yframes)
+                ycount[0] += 1
+                ry = dec._decode(pgnX, 3, 9, 255, TS, yframes[k], b"")
+                trans[0] += 2
+                return r, ry, k
+            trans[0] += 1
+            return r, None, None
         script = []
         for i, (pay, frames) in enumerate(msgs):
             if i == 0:
@@ -151,7 +158,9 @@ def _b_worker(job):
                     problem = "frame %d of message %d produced a delivery although the message was not completed by it" % (j, i)
                     break
             # stream Y: delivered at every 2nd frame, intact
-            if k == len(yframes) - 1:
+            if k is None:
+                pass
+            elif k == len(yframes) - 1:
                 expect_calls += 1
                 if ry is None:
                     problem = "stream Y message not delivered"
@@ -170,12 +179,12 @@ def _b_worker(job):
         if problem is not None:
             st0, m0 = satisfiable(z3.And(pa.cond(), *assume))
             if st0 == "sat":
-                rep.violation({"kind": "history-delivery", "what": problem.split(" ")[0]}, problem, wit(m0, pa, job, cs, msgs, final, ypay, events))
+                rep.violation({"kind": "history-delivery", "what": problem.split(" ")[0]}, problem, wit(m0, pa, job, cs, msgs, final, ypay, events, yframes))
             continue
         st, m = prove(z3.And(*claims) if claims else z3.BoolVal(True), assume + pa.pc, label="B-content")
         if st == "sat":
             rep.violation({"kind": "history-content"}, "a delivered payload differs from the bytes sent (mixing / padding leak)",
-                          wit(m, pa, job, cs, msgs, final, ypay, events))
+                          wit(m, pa, job, cs, msgs, final, ypay, events, yframes))
         elif st == "unknown":
             rep.inconc("B content undecided")
         if nsamples < 1:
@@ -197,7 +206,7 @@ def _completes(events, i, j, ev):
     return j not in seen_before
 
 
-def wit(m, pa, job, cs, msgs, final, ypay, events=None):
+def wit(m, pa, job, cs, msgs, final, ypay, events=None, yfr=None):
     def val(x):
         return m.eval(x.t if isinstance(x, SymInt) else x, True).as_long() & 0xFF if m is not None else 0
     fr = []
@@ -205,6 +214,8 @@ def wit(m, pa, job, cs, msgs, final, ypay, events=None):
         for e in events:
             pay, frames = msgs[e[1]] if e[0] == "x" else final
             fr.append(("X", bytes(val(SymInt.lift(b)) for b in frames[e[2]].items).hex()))
+            if e[7] is not None and yfr is not None:
+                fr.append(("Y", bytes(val(SymInt.lift(b)) for b in yfr[e[7]].items).hex()))
     return {"kind": "history", "frames": fr, "decisions": [int(d) for d in pa.decisions], "job": list(job),
             "counters": [m.eval(c, True).as_long() if m is not None else 0 for c in cs]}
 
@@ -274,11 +285,13 @@ def run(tier, seed):
     sizes = (20, 13)
     rep.bounds = {"stream X": "messages of %r bytes + one intact 9-byte message; per message: first frame lost or not, then up to %d picks "
                               "(with repetition, any order) among its frames" % (sizes, maxp),
-                  "stream Y": "13-byte messages from another source interleaved after every X frame",
+                  "stream Y": "13-byte messages from another source interleaved after every X frame, or after every other X frame (odd / even feeds)",
                   "bytes/padding/counters": "symbolic; consecutive counters distinct",
                   "stream identities (S)": "symbolic source/destination (8 bits each), 2 PGNs"}
     rep.outside = ["histories longer than the bound", "more than two concurrent streams", "frames of a message arriving after the next message's first frame"]
     jobs = [(fc, sizes, maxp) for fc in (0, 1)] + [(fc, (27, 13), maxp) for fc in (0, 1)]
+    # the second stream's frames after every other X frame only (two consecutive X frames with no foreign frame between them)
+    jobs += [(0, sizes, maxp, "odd"), (0, sizes, maxp, "even"), (0, (13, 13), maxp, "odd"), (0, (13, 13), maxp, "even")]
     if tier == "thorough":
         jobs += [(fc, (13, 20), maxp) for fc in (0, 1)] + [(fc, (34, 7), maxp) for fc in (0, 1)] + [(fc, (20, 27), maxp) for fc in (0, 1)]
     ctx = mp.get_context("fork")
@@ -329,6 +342,12 @@ def replay(r):
         problems = []
         for who, hx in r["frames"]:
             fr = bytes.fromhex(hx)          # as received: reversed CAN data
+            if who == "Y":
+                try:
+                    dec._decode(pg[0], 3, 9, 255, TS, fr, b"")      # the interleaved stream (other source); its own deliveries are not judged here
+                except Exception as e:
+                    return True, "decoder raised %r" % (e,)
+                continue
             can = fr[::-1]
             seq, idx = can[0] >> 5, can[0] & 31
             exp = None
